@@ -263,13 +263,27 @@ def check_resolve(ctx, c, o, counters):
             mism = True
     pairs = [("cli", "cli", "cli"), ("lib", "lib", "lib"), ("col", "col", "col"), ("shared_importer", "lsp", "shared"),
              ("shared_entry", "col", "shared"), ("lsp", "lsp", "lsp-server")]
+    stale = []
     for rk, ek, name in pairs:
         if rk in real:
             counters["answers"] += 1
             if real[rk] != exp[ek]:
-                ctx.fail(f"transcription-mismatch:{name}", dict(pay, resolver=rk, real=real[rk], transcribed=exp[ek], obs=ob.get(rk.split('_')[0])),
-                         f"{rk} resolved {real[rk]} but its transcription says {exp[ek]} for `{c['text']}`")
-                mism = True
+                stale.append((rk, ek, name))
+    if stale and not mism:
+        # The code no longer answers as transcribed on this layout. The transcription is a MEANS (it names the cause of a
+        # disagreement); the property is judged on the real answers themselves: every tool resolves the import to the same file,
+        # and to the documented file where the documentation fixes it. A change that makes the tools agree is not a violation.
+        answers = {k: tuple(real[k]) for k in ("cli", "lib", "lsp") if k in real}
+        want = (rel(c["doc"]),) if (c["docfixed"] and c["doc"]) else (() if c["docfixed"] else None)
+        agree = len(set(answers.values())) == 1 and (want is None or set(answers.values()) == {want})
+        if agree:
+            counters["transcription_outdated_property_holds"] = counters.get("transcription_outdated_property_holds", 0) + 1
+            return
+        rk, ek, name = stale[0]
+        ctx.fail(f"transcription-mismatch:{name}", dict(pay, resolver=rk, real=real[rk], transcribed=exp[ek], answers={k: list(v) for k, v in answers.items()},
+                                                        obs=ob.get(rk.split('_')[0])),
+                 f"{rk} resolved {real[rk]} (transcription: {exp[ek]}) for `{c['text']}` and the tools do not agree on one file")
+        return
     if mism:
         return
     # the transcriptions are confirmed on this case: their disagreements are disagreements of the code
@@ -354,8 +368,14 @@ def check_vis(ctx, c, o, counters):
             observed = "reject" if msgs else "accept"
         counters["vis_verdicts"] += 1
         if observed != c[tool]:
+            if observed == c["demanded"]:
+                # the code changed towards what the property demands: not a violation (the transcription is outdated here)
+                counters["transcription_outdated_property_holds"] = counters.get("transcription_outdated_property_holds", 0) + 1
+                counters["vis_as_demanded"] += 1
+                continue
             ctx.fail(f"visibility-transcription-mismatch:{tool}", dict(pay, tool=tool, observed=observed, msgs=msgs[:3]),
-                     f"{tool} {observed}s {c['kind']} pub={c['pub']} ref={c['ref']} use={c['use']}; the transcription says {c[tool]}")
+                     f"{tool} {observed}s {c['kind']} pub={c['pub']} ref={c['ref']} use={c['use']}; the transcription says {c[tool]} "
+                     f"and the property demands {c['demanded']}")
             continue
         if observed != c["demanded"]:
             ctx.fail(vis_sig(c, tool, observed), dict(pay, tool=tool, observed=observed, msgs=msgs[:3]), None)
